@@ -700,10 +700,12 @@ class Model:
                             support = ambset
                     ew_constr = ew_constr.forall(support)
                 else:
+                    num_row = ew_constr.affine.size
+                    det_const = - ew_constr.affine.const.reshape((num_row, ))
+                    det_sense = ew_constr.sense * np.ones(num_row)
                     ew_constr = LinConstr(ew_constr.affine.model,
                                           ew_constr.affine.linear,
-                                          ew_constr.affine.const,
-                                          ew_constr.sense)
+                                          det_const, det_sense)
 
             ro_constr.append(ew_constr)
 
